@@ -116,6 +116,16 @@ func runHelper(dir string, sc CacheScenario, label string, straceArgs []string) 
 	return -1, err.Error() + string(out)
 }
 
+func firstLine(s string) string {
+	if i := strings.IndexByte(s, '\n'); i >= 0 {
+		s = s[:i]
+	}
+	if len(s) > 160 {
+		s = s[:160]
+	}
+	return s
+}
+
 func runCache(sc CacheScenario, tmp string) world.Verdict {
 	base, err := os.MkdirTemp(tmp, "base")
 	if err != nil {
@@ -148,6 +158,11 @@ func runCache(sc CacheScenario, tmp string) world.Verdict {
 			}
 			if rc != 137 && !strings.Contains(out, "illed") && rc != -1 {
 				os.RemoveAll(work)
+				if strings.Contains(out, "strace:") || strings.Contains(out, "ptrace(") {
+					// the tracer itself failed (seen under load: "ptrace(PTRACE_LISTEN...): Input/output error"): the
+					// case says nothing about the node
+					return world.Verdict{Excluded: true, Labels: []string{"strace-failed-inconclusive"}, Observations: []string{"strace failed: " + firstLine(out)}}
+				}
 				return world.Fail("C04/cache-helper", "helper under strace failed unexpectedly (syscall %s, k=%d): rc=%d %s", scall, k, rc, out)
 			}
 			killed++
